@@ -8,6 +8,7 @@ CONSTANTS
   ABORTS = FALSE
   RESETONERR = TRUE
   EOMCTX = TRUE
+  KEEPOPEN = TRUE
   GEN = FALSE
 INVARIANTS C01_Messages C01_AllButLastFull C01_NothingLeftBehind C01_SizeBound
 VIEW View
